@@ -29,6 +29,7 @@ import (
 	"fmt"
 	"io"
 	"os"
+	"os/exec"
 	"runtime"
 	"strings"
 	"sync"
@@ -48,12 +49,12 @@ import (
 )
 
 type c08Case struct {
-	Fam    string `json:"fam"`              // id, trunc, subst, del, dup, ins, swap, append, splice, cross, short, seed
+	Fam    string `json:"fam"`              // id, trunc, subst, del, dup, ins, swap, append, splice, cross, inner, short, seed
 	Blk    int    `json:"blk"`              // index of the block whose encoding is mutated
 	Pos    int    `json:"pos,omitempty"`    // byte position
 	Val    int    `json:"val,omitempty"`    // byte value (subst, ins, append) / short string value
 	Donor  int    `json:"donor,omitempty"`  // splice/cross: other block
-	Parts  int    `json:"parts,omitempty"`  // cross: bit 0 patch txs, 1 normal txs, 2 votes, 3 BTP digest
+	Parts  int    `json:"parts,omitempty"`  // cross: bit 0 patch txs, 1 normal txs, 2 votes, 3 BTP digest; inner: 4 votes, 8 digest, 16+i tx i
 	Len    int    `json:"len,omitempty"`    // short: length
 	Reader string `json:"reader"`           // seek (bytes.Reader) | stream (non-seekable, one byte at a time)
 }
@@ -134,6 +135,7 @@ func c08NewWorld(nBlocks int) (*c08World, error) {
 	w := &c08World{byID: map[string]*c08Block{}}
 	w.fx = blkfx.New(4, 1)
 	w.nd = w.fx.Nodes[0]
+	c08Bases.Store(w.nd.Base, true)
 	bdf, err := block.NewBlockDataFactory(w.nd.Chain, nil)
 	if err != nil {
 		return nil, err
@@ -240,7 +242,11 @@ func c08NewWorld(nBlocks int) (*c08World, error) {
 	return w, nil
 }
 
-func (w *c08World) close() { w.fx.Close() }
+func (w *c08World) close() {
+	base := w.nd.Base
+	w.fx.Close()
+	c08Bases.Delete(base)
+}
 
 // upstream fuzz seeds (block/blockdatafactory_test.go)
 var c08Seeds = [][]byte{
@@ -251,7 +257,7 @@ var c08Seeds = [][]byte{
 // input builds the byte string of a case.
 func (w *c08World) input(c c08Case) []byte {
 	var e []byte
-	if c.Fam != "short" && c.Fam != "seed" {
+	if c.Fam != "short" && c.Fam != "seed" && c.Fam != "inner" {
 		e = w.blocks[c.Blk].enc
 	}
 	switch c.Fam {
@@ -296,6 +302,22 @@ func (w *c08World) input(c c08Case) []byte {
 		}
 		if c.Parts&8 != 0 {
 			bf.BTPDigest = d.body.BTPDigest
+		}
+		return blkfx.Encode(&hf, &bf)
+	case "inner":
+		// a body part re-framed after cutting it to c.Pos bytes (outer lengths stay consistent)
+		b := w.blocks[c.Blk]
+		hf, bf := b.hdr, b.body
+		switch {
+		case c.Parts == 4:
+			bf.Votes = append([]byte(nil), bf.Votes[:c.Pos]...)
+		case c.Parts == 8:
+			bf.BTPDigest = append([]byte{}, bf.BTPDigest[:c.Pos]...)
+		default: // 16+i: normal transaction i
+			i := c.Parts - 16
+			txs := append([][]byte(nil), bf.NormalTransactions...)
+			txs[i] = append([]byte{}, txs[i][:c.Pos]...)
+			bf.NormalTransactions = txs
 		}
 		return blkfx.Encode(&hf, &bf)
 	case "short":
@@ -502,6 +524,176 @@ func (w *c08World) evaluate(c c08Case, in []byte) (v c08Verdict, fails []c08Fail
 	return
 }
 
+// ---------------------------------------------------------------------------
+// Runaway predictor. It mirrors btp's digest formats on the real codec; the
+// network-digest list is decoded with the same loop as
+// btp.(*networkDigestSlice).RLPDecodeSelf (leave on io.EOF only) but capped, so
+// that it can tell, without running the real decoder, whether the real one
+// would spin. It is used only to decide which inputs must not be executed
+// in-process; the verdict itself always comes from the real code (child
+// process canaries / in-process run).
+
+type c08ND struct {
+	NetworkID          int64
+	NetworkSectionHash []byte
+	MessagesRoot       []byte
+}
+
+type c08NDs struct {
+	n       int
+	runaway bool
+}
+
+func (s *c08NDs) RLPDecodeSelf(d codec.Decoder) error {
+	d2, err := d.DecodeList()
+	if err != nil {
+		return err
+	}
+	for {
+		var nd c08ND
+		err := d2.Decode(&nd)
+		if err == io.EOF {
+			return nil
+		}
+		s.n++
+		if s.n > 4096 {
+			s.runaway = true
+			return fmt.Errorf("runaway")
+		}
+	}
+}
+
+type c08NTD struct {
+	NetworkTypeID          int64
+	UID                    string
+	NetworkTypeSectionHash []byte
+	NetworkDigests         c08NDs
+}
+
+type c08NTDs struct {
+	runaway bool
+}
+
+func (s *c08NTDs) RLPDecodeSelf(d codec.Decoder) error {
+	d2, err := d.DecodeList()
+	if err != nil {
+		return err
+	}
+	for {
+		var ntd c08NTD
+		err := d2.Decode(&ntd)
+		if ntd.NetworkDigests.runaway {
+			s.runaway = true
+		}
+		if err == io.EOF {
+			return nil
+		} else if err != nil {
+			return err
+		}
+	}
+}
+
+type c08Digest struct {
+	NetworkTypeDigests c08NTDs
+}
+
+// c08PredictRunaway reports whether the body of the input carries a BTP digest
+// on which a decoder that ignores element errors in the network-digest list
+// does not terminate.
+func c08PredictRunaway(in []byte) bool {
+	var hf block.V2HeaderFormat
+	var bf block.V2BodyFormat
+	rd := bytes.NewReader(in)
+	if codec.BC.Unmarshal(rd, &hf) != nil || codec.BC.Unmarshal(rd, &bf) != nil || bf.BTPDigest == nil {
+		return false
+	}
+	var f c08Digest
+	_, _ = codec.UnmarshalFromBytes(bf.BTPDigest, &f)
+	return f.NetworkTypeDigests.runaway
+}
+
+// ---------------------------------------------------------------------------
+// Child process: one case on the real decoder with a runaway guard.
+
+const c08RunawaySig = "decode-does-not-terminate:btp-network-digest-list-element-error"
+
+var c08Bases sync.Map // temp dirs of live fixtures (removed before a forced exit)
+
+func c08RemoveBases() {
+	c08Bases.Range(func(k, _ interface{}) bool {
+		os.RemoveAll(k.(string))
+		return true
+	})
+}
+
+func c08ChildMain(t *testing.T) {
+	var c c08Case
+	if err := json.Unmarshal([]byte(os.Getenv("C08_CHILD_CASE")), &c); err != nil {
+		fmt.Printf("C08CHILD ERROR %v\n", err)
+		os.Exit(5)
+	}
+	nBlocks := 5
+	fmt.Sscanf(os.Getenv("C08_CHILD_NBLOCKS"), "%d", &nBlocks)
+	w, err := c08NewWorld(nBlocks)
+	if err != nil {
+		fmt.Printf("C08CHILD ERROR fixture: %v\n", err)
+		os.Exit(5)
+	}
+	in := w.input(c)
+	var m0 runtime.MemStats
+	runtime.ReadMemStats(&m0)
+	go func() {
+		start := time.Now()
+		for {
+			time.Sleep(50 * time.Millisecond)
+			var m runtime.MemStats
+			runtime.ReadMemStats(&m)
+			if m.TotalAlloc-m0.TotalAlloc > 768<<20 || time.Since(start) > 90*time.Second {
+				fmt.Printf("C08CHILD RUNAWAY allocated=%dMB elapsed=%v\n", (m.TotalAlloc-m0.TotalAlloc)>>20, time.Since(start))
+				c08RemoveBases()
+				os.Exit(7)
+			}
+		}
+	}()
+	v, fails := w.evaluate(c, in)
+	fmt.Printf("C08CHILD DONE decoded=%v err=%q fails=%d\n", v.decoded, c08ErrClass(v.errText), len(fails))
+	w.close()
+	os.Exit(0)
+}
+
+// c08RunInChild executes the case on the real decoder in a child process and
+// reports whether the decoder ran away there.
+func c08RunInChild(c c08Case, nBlocks int) (runaway bool, out string, err error) {
+	cmd := exec.Command(os.Args[0], "-test.run", "^TestVerifC08$")
+	cmd.Env = append(os.Environ(), "C08_CHILD_CASE="+c.key(), fmt.Sprintf("C08_CHILD_NBLOCKS=%d", nBlocks))
+	var buf bytes.Buffer
+	cmd.Stdout, cmd.Stderr = &buf, io.Discard
+	done := make(chan error, 1)
+	if err := cmd.Start(); err != nil {
+		return false, "", err
+	}
+	go func() { done <- cmd.Wait() }()
+	select {
+	case <-done:
+	case <-time.After(5 * time.Minute):
+		cmd.Process.Kill()
+		<-done
+		return false, "", fmt.Errorf("child did not finish")
+	}
+	for _, l := range strings.Split(buf.String(), "\n") {
+		if strings.HasPrefix(l, "C08CHILD ") {
+			out = l
+		}
+	}
+	switch {
+	case strings.HasPrefix(out, "C08CHILD RUNAWAY"):
+		return true, out, nil
+	case strings.HasPrefix(out, "C08CHILD DONE"):
+		return false, out, nil
+	}
+	return false, out, fmt.Errorf("child gave no verdict: %q", out)
+}
+
 // enumerate calls fn for every case of the tier in a fixed order.
 func (w *c08World) enumerate(thorough bool, fn func(c c08Case)) {
 	readers := []string{"seek", "stream"}
@@ -523,6 +715,7 @@ func (w *c08World) enumerate(thorough bool, fn func(c c08Case)) {
 			for v := 0; v < 256; v++ {
 				fn(c08Case{Fam: "append", Blk: b, Val: v, Reader: rk})
 			}
+			w.enumInner(b, rk, fn)
 			for d := 0; d < nb; d++ {
 				if d == b {
 					continue
@@ -546,12 +739,16 @@ func (w *c08World) enumerate(thorough bool, fn func(c c08Case)) {
 			fn(c08Case{Fam: "seed", Val: i, Reader: rk})
 		}
 	}
-	// the big families: substitution in both tiers (stream reader only in thorough), insertion in thorough
+	// the big families: substitution (quick: blocks 2, 3 and the last one, seekable reader; thorough: all blocks,
+	// both readers), insertion in thorough
 	for _, rk := range readers {
 		if rk == "stream" && !thorough {
 			continue
 		}
 		for b := 0; b < nb; b++ {
+			if !thorough && !(b == 2 || b == 3 || b == nb-1) {
+				continue
+			}
 			e := w.blocks[b].enc
 			for p := 0; p < len(e); p++ {
 				for v := 0; v < 256; v++ {
@@ -574,23 +771,41 @@ func (w *c08World) enumerate(thorough bool, fn func(c c08Case)) {
 	}
 }
 
+// enumInner: every proper prefix of the votes bytes, of the BTP digest bytes and
+// of every transaction of block b, re-framed into an otherwise unchanged block.
+func (w *c08World) enumInner(b int, rk string, fn func(c c08Case)) {
+	bf := w.blocks[b].body
+	for p := 0; p < len(bf.Votes); p++ {
+		fn(c08Case{Fam: "inner", Blk: b, Parts: 4, Pos: p, Reader: rk})
+	}
+	for p := 0; p < len(bf.BTPDigest); p++ {
+		fn(c08Case{Fam: "inner", Blk: b, Parts: 8, Pos: p, Reader: rk})
+	}
+	for i, tx := range bf.NormalTransactions {
+		for p := 0; p < len(tx); p++ {
+			fn(c08Case{Fam: "inner", Blk: b, Parts: 16 + i, Pos: p, Reader: rk})
+		}
+	}
+}
+
 type c08Stats struct {
 	mu       sync.Mutex
 	decoded  map[string]int64 // by family
 	rejected map[string]int64
 	sameID   map[string]int64 // decoded mutants (not "id") with the id of a chain block
 	otherID  map[string]int64 // decoded mutants with a new id
+	skipped  map[string]int64 // not executed: predicted to hit the confirmed non-terminating decode
 	errs     map[string]int64
 }
 
 func c08NewStats() *c08Stats {
-	return &c08Stats{decoded: map[string]int64{}, rejected: map[string]int64{}, sameID: map[string]int64{}, otherID: map[string]int64{}, errs: map[string]int64{}}
+	return &c08Stats{decoded: map[string]int64{}, rejected: map[string]int64{}, sameID: map[string]int64{}, otherID: map[string]int64{}, skipped: map[string]int64{}, errs: map[string]int64{}}
 }
 
 func (s *c08Stats) merge(o *c08Stats) {
 	s.mu.Lock()
 	defer s.mu.Unlock()
-	for _, p := range []struct{ d, s map[string]int64 }{{s.decoded, o.decoded}, {s.rejected, o.rejected}, {s.sameID, o.sameID}, {s.otherID, o.otherID}, {s.errs, o.errs}} {
+	for _, p := range []struct{ d, s map[string]int64 }{{s.decoded, o.decoded}, {s.rejected, o.rejected}, {s.sameID, o.sameID}, {s.otherID, o.otherID}, {s.skipped, o.skipped}, {s.errs, o.errs}} {
 		for k, v := range p.s {
 			p.d[k] += v
 		}
@@ -632,21 +847,23 @@ func c08ErrClass(s string) string {
 	return string(out)
 }
 
-func (w *c08World) check(r *ev.Run, c c08Case, st *c08Stats) {
+// c08Current is what a worker is executing right now (for the in-process guard).
+type c08Current struct {
+	c     c08Case
+	start time.Time
+}
+
+func (w *c08World) check(r *ev.Run, c c08Case, st *c08Stats, skipPredicted bool, cur *atomic.Pointer[c08Current]) {
 	in := w.input(c)
-	probe := os.Getenv("C08_PROBE") != ""
-	var m0, m1 runtime.MemStats
-	if probe {
-		runtime.ReadMemStats(&m0)
+	if skipPredicted && c08PredictRunaway(in) {
+		st.skipped[c.Fam]++
+		return
 	}
-	t0 := time.Now()
+	if cur != nil {
+		cur.Store(&c08Current{c, time.Now()})
+		defer cur.Store(nil)
+	}
 	v, fails := w.evaluate(c, in)
-	if probe {
-		runtime.ReadMemStats(&m1)
-		if d := time.Since(t0); d > 100*time.Millisecond || m1.TotalAlloc-m0.TotalAlloc > 16<<20 {
-			fmt.Printf("SLOW %v alloc=%dMB case=%s err=%q\n", d, (m1.TotalAlloc-m0.TotalAlloc)>>20, c.key(), c08ErrClass(v.errText))
-		}
-	}
 	if v.decoded {
 		st.decoded[c.Fam]++
 		if c.Fam != "id" {
@@ -666,9 +883,13 @@ func (w *c08World) check(r *ev.Run, c c08Case, st *c08Stats) {
 }
 
 func TestVerifC08(t *testing.T) {
+	if os.Getenv("C08_CHILD_CASE") != "" {
+		c08ChildMain(t)
+		return
+	}
 	r := ev.Start(t, "C08", "exploration")
 	r.SetBudget(75*time.Second, 13*time.Minute)
-	r.Rule("for every block of a real fixture chain (0/1/3 txs, with/without votes, NTS proofs, BTP digest, NSFilter): its own encoding; every truncation, single-byte substitution (position x 255 values), deletion, duplication, adjacent swap, one trailing byte (256 values), same-offset splice with every other block, and header/body cross-over (non-empty subset of {patch,normal,votes,digest} from every other block); thorough adds every single-byte insertion (position x 256) and the non-seekable reader for substitutions; plus all byte strings of length <= 2 and the two upstream fuzz seeds; each through a seekable and a one-byte-at-a-time reader; non-trivial = distinct input actually submitted to BlockDataFactory.NewBlockDataFromReader")
+	r.Rule("for every block of a real fixture chain (0/1/3 txs, with/without votes, NTS proofs, BTP digest, NSFilter): its own encoding; every truncation, single-byte deletion, duplication, adjacent swap, one trailing byte (256 values), same-offset splice with every other block, header/body cross-over (non-empty subset of {patch,normal,votes,digest} from every other block), every proper prefix of the votes / BTP digest / each transaction re-framed into the block; every single-byte substitution (position x 255 values; quick: blocks 2, 3 and the last, thorough: all blocks); thorough adds every single-byte insertion (position x 256); plus all byte strings of length <= 2 and the two upstream fuzz seeds; each through a seekable and a one-byte-at-a-time reader (substitution/insertion: seekable only in quick); non-trivial = distinct input actually submitted to BlockDataFactory.NewBlockDataFromReader")
 	r.Assume("fixture: real block.Manager / service transitions of test.Node (basic platform, MapDB), fixed secp256k1 keys, one BTP network (eth); only block version 2 exists in this tree")
 	r.Assume("arbitrary bytes are covered by the structured finite families listed in the rule, not by all 2^(8n) strings")
 
@@ -686,8 +907,17 @@ func TestVerifC08(t *testing.T) {
 			t.Fatalf("replay fixture: %v", err)
 		}
 		defer w.close()
+		if c08PredictRunaway(w.input(c)) {
+			ra, out, err := c08RunInChild(c, 7)
+			fmt.Printf("REPLAY C08 child: runaway=%v %s err=%v\n", ra, out, err)
+			if ra {
+				r.Violation(c08RunawaySig, "NewBlockDataFromReader does not terminate (memory grows without bound) on case="+c.key()+"; "+out, c)
+				r.Finish(false)
+				return
+			}
+		}
 		st := c08NewStats()
-		w.check(r, c, st)
+		w.check(r, c, st, false, nil)
 		fmt.Printf("REPLAY C08 decoded=%v rejected=%v errs=%v\n", st.decoded, st.rejected, st.errs)
 		r.Finish(false)
 		return
@@ -697,15 +927,85 @@ func TestVerifC08(t *testing.T) {
 	if workers > 16 {
 		workers = 16
 	}
-	if os.Getenv("C08_PROBE") != "" {
-		workers = 1
+
+	// Canaries: the first inputs of the "inner" family that the predictor flags, one per
+	// block, are executed on the real decoder in child processes.
+	defect := false
+	canaryRuns := []string{}
+	{
+		w0, err := c08NewWorld(nBlocks)
+		if err != nil {
+			r.Sanity(false, "C08 fixture: %v", err)
+			r.Finish(false)
+			return
+		}
+		var canaries []c08Case
+		for b := range w0.blocks {
+			found := false
+			w0.enumInner(b, "seek", func(c c08Case) {
+				if !found && c.Parts == 8 && c08PredictRunaway(w0.input(c)) {
+					found = true
+					canaries = append(canaries, c)
+				}
+			})
+		}
+		w0.close()
+		if len(canaries) > 3 {
+			canaries = canaries[:3]
+		}
+		type res struct {
+			ra  bool
+			out string
+			err error
+		}
+		results := make([]res, len(canaries))
+		ev.Par(len(canaries), len(canaries), func(i int) {
+			ra, out, err := c08RunInChild(canaries[i], nBlocks)
+			results[i] = res{ra, out, err}
+		})
+		for i, c := range canaries {
+			r.Eval(1)
+			canaryRuns = append(canaryRuns, fmt.Sprintf("%s -> %s", c.key(), results[i].out))
+			if results[i].err != nil {
+				r.Sanity(false, "C08 canary child failed: %v", results[i].err)
+				continue
+			}
+			if results[i].ra {
+				defect = true
+				r.Violation(c08RunawaySig, "NewBlockDataFromReader does not terminate (memory grows without bound) on a block whose body carries a truncated BTP digest: case="+c.key()+"; child process: "+results[i].out, c)
+			}
+		}
 	}
+
 	total := c08NewStats()
 	var incomplete atomic.Bool
 	var encMu sync.Mutex
 	var encs []string
 	var sizes []map[string]interface{}
 	var totalCases int64
+	currents := make([]atomic.Pointer[c08Current], workers)
+
+	// in-process guard: a case that is still running after 3 minutes is a decoder that does not
+	// terminate (and was not predicted): report it and leave, the goroutine cannot be stopped.
+	guardDone := make(chan struct{})
+	go func() {
+		for {
+			select {
+			case <-guardDone:
+				return
+			case <-time.After(time.Second):
+			}
+			for i := range currents {
+				if cc := currents[i].Load(); cc != nil && time.Since(cc.start) > 3*time.Minute {
+					r.Violation("decode-does-not-terminate:unpredicted", "NewBlockDataFromReader still running after 3 minutes on case="+cc.c.key(), cc.c)
+					r.Cap("aborted: a decode did not terminate")
+					r.Finish(false)
+					c08RemoveBases()
+					os.Exit(1)
+				}
+			}
+		}
+	}()
 
 	ev.Par(workers, workers, func(wk int) {
 		w, err := c08NewWorld(nBlocks)
@@ -748,7 +1048,7 @@ func TestVerifC08(t *testing.T) {
 				}
 			}
 			r.Nontrivial(c.key())
-			w.check(r, c, st)
+			w.check(r, c, st, defect, &currents[wk])
 		})
 		r.Eval(n % 256)
 		if abort {
@@ -761,14 +1061,22 @@ func TestVerifC08(t *testing.T) {
 			r.Sanity(false, "C08 fixture helper assertion: %s", errs[0])
 		}
 	})
+	close(guardDone)
 
 	complete := !incomplete.Load()
+	var nSkipped int64
+	for _, v := range total.skipped {
+		nSkipped += v
+	}
+	if nSkipped > 0 {
+		r.Cap(fmt.Sprintf("%d inputs predicted to hit the confirmed non-terminating BTP digest decode were not executed", nSkipped))
+	}
 	// vacuity guards
 	r.Sanity(total.decoded["id"] == int64(2*(nBlocks+1)) || !complete, "C08 vacuity: %d own encodings decoded, want %d", total.decoded["id"], 2*(nBlocks+1))
-	for _, fam := range []string{"trunc", "subst", "del", "dup", "splice", "cross"} {
-		r.Sanity(total.rejected[fam] > 0, "C08 vacuity: no rejected input in family %s", fam)
+	for _, fam := range []string{"trunc", "subst", "del", "dup", "splice", "cross", "inner"} {
+		r.Sanity(total.rejected[fam] > 0 || !complete, "C08 vacuity: no rejected input in family %s", fam)
 	}
-	r.Sanity(total.decoded["subst"] > 0 && total.decoded["append"] > 0, "C08 vacuity: no mutant decoded successfully (binding checks never ran on a mutant)")
+	r.Sanity(total.decoded["subst"] > 0 && total.decoded["append"] > 0 || !complete, "C08 vacuity: no mutant decoded successfully (binding checks never ran on a mutant)")
 	r.Sanity(len(total.errs) > 3, "C08 vacuity: only %d distinct rejection messages", len(total.errs))
 	withDigest, withVotes, withTx := 0, 0, 0
 	for _, s := range sizes {
@@ -783,6 +1091,7 @@ func TestVerifC08(t *testing.T) {
 		}
 	}
 	r.Sanity(withDigest > 0 && withDigest < len(sizes) && withVotes > 1 && withTx > 1, "C08 vacuity: fixture lacks variety (digest %d, votes %d, txs %d of %d)", withDigest, withVotes, withTx, len(sizes))
+	r.Sanity(len(canaryRuns) > 0, "C08 vacuity: the runaway predictor flagged no canary input")
 
 	r.Set("blocks", sizes)
 	r.Set("cases_in_space", atomic.LoadInt64(&totalCases))
@@ -790,14 +1099,17 @@ func TestVerifC08(t *testing.T) {
 	r.Set("rejected_by_family", total.rejected)
 	r.Set("decoded_mutants_with_chain_block_id", total.sameID)
 	r.Set("decoded_mutants_with_new_id", total.otherID)
+	r.Set("skipped_predicted_runaway_by_family", total.skipped)
+	r.Set("runaway_canaries_in_child_process", canaryRuns)
+	r.Set("runaway_confirmed", defect)
 	r.Set("distinct_rejection_messages", len(total.errs))
 	r.Set("rejection_messages", total.errs)
 	r.Set("workers", workers)
-	if len(encs) > 2 {
+	if len(encs) > 3 {
 		r.Sample(map[string]interface{}{"case": c08Case{Fam: "id", Blk: 2, Reader: "seek"}, "input": encs[2], "oracle": "decodes to block 2, re-marshals to the same bytes"})
 		e := encs[2]
 		r.Sample(map[string]interface{}{"case": c08Case{Fam: "trunc", Blk: 2, Pos: len(e)/2 - 1, Reader: "stream"}, "input": e[:len(e)-2], "oracle": "no panic; error or a block bound to the input header"})
 		r.Sample(map[string]interface{}{"case": c08Case{Fam: "cross", Blk: 3, Donor: 2, Parts: 4, Reader: "seek"}, "oracle": "header of block 3 with the votes of block 2: must not decode to a block with the id of block 3"})
 	}
-	r.Finish(complete)
+	r.Finish(complete && !defect)
 }
